@@ -99,6 +99,14 @@ def run_replay_file(rpath, prop):
     if not os.path.exists(src):
         src = os.path.join(scratch, "src", *mod, "mod.rs")
     body = text.split("\n", 3)[3]
+    inline = []
+    while not os.path.exists(src) and len(mod) > 1:
+        # harness in an inline (e.g. macro-generated) module: append to the file of the nearest enclosing module and
+        # reach the harness through a glob import (harness fns in inline modules are pub(crate) for this purpose)
+        inline.insert(0, mod[-1]); mod = mod[:-1]
+        src = os.path.join(scratch, "src", *mod) + ".rs"
+    if inline:
+        body = "mod vp_replay_%s {\n#[allow(unused_imports)] use super::%s::*;\n%s\n}\n" % ("_".join(inline), "::".join(inline), body)
     with open(src, "a") as f:
         f.write("\n" + body + "\n")
     tname = re.search(r"fn (kani_concrete_playback_\w+)", body).group(1)
